@@ -46,6 +46,8 @@ BOUND = {
     "quick": "tr: subsets <=3 of 42 headers x or_other{0,1}; sheet: distance <=2 + distance-3 shell for settings/entities (warnings) and survey/choices/external_choices (error hints) over a 5-letter alphabet; lang: 11x11 pairs; row: L(3,3) x 0..2 triggers",
     "thorough": "tr: subsets <=4; sheet: same with 6-letter alphabet; lang: 14x14; row: L(4,3) x 0..2 triggers",
 }
+# as-built additions to the bound (kept next to BOUND so that the evidence reports them)
+BOUND = {k: v + "; plus: " + 'unlabeled choices with repeated names under allow_choice_duplicates (27 name triples x 7 masks); both id headers with one cell blank / swapped order' for k, v in BOUND.items()}
 
 SUPPORTED = {"survey", "choices", "settings", "external_choices", "osm", "entities"}
 SV_COLS = ["label", "hint", "guidance_hint", "constraint_message", "required_message", "image", "audio", "video", "big-image"]
